@@ -57,6 +57,23 @@ def soup(rng):
     return "".join(rng.choice(ATOMS) for _ in range(rng.randrange(1, 9)))
 
 
+def derived_hit(rng, tree):
+    """a path that resolves, possibly through a fan-out / predicate with a single match"""
+    poss = [p for p, v in X.positions(tree) if p]
+    if not poss:
+        return "zz"
+    p = rng.choice(poss)
+    xp = X.render(rng, tree, p)
+    if rng.random() < 0.5:
+        # replace one index step by [*]
+        import re
+        idx = [m for m in re.finditer(r"\[[^\]]*\]", xp)]
+        if idx:
+            m = rng.choice(idx)
+            xp = xp[: m.start()] + "[*]" + xp[m.end():]
+    return xp
+
+
 def derived_miss(rng, tree):
     poss = [p for p, _ in X.positions(tree) if p]
     if not poss:
@@ -116,6 +133,9 @@ def check_lookup(c):
             return {"first_changed_tree": True}
         if item[0] == "err" and not same(f[1], want_d):
             return {"first_returned": repr(f[1])[:200], "item_access_raised": item[1], "want_default": want_d}
+        if item[0] == "ok" and d == "DFLT" and not xp.startswith("?") and same(f[1], "DFLT"):
+            # the path resolves (item access and get return a value): first must not answer with the default
+            return {"first_returned_default": True, "item_access_returned": repr(item[1])[:200]}
     return None
 
 
@@ -157,7 +177,7 @@ def run(ctx):
         mode = rng.choice(["n0", "wrap"])
         for _ in range(4):
             r = rng.random()
-            xp = soup(rng) if r < 0.55 else derived_miss(rng, t)
+            xp = soup(rng) if r < 0.45 else (derived_miss(rng, t) if r < 0.8 else derived_hit(rng, t))
             cases.append({"tree": t, "mode": mode, "xp": xp})
     ctx.evaluate("lookup", cases, check_lookup, in_known=in_known, nontrivial=lambda c: len(c["xp"]) > 2)
     # exhaustive small scope: every string of <= k atoms of a reduced xpath alphabet on fixed trees
